@@ -264,6 +264,9 @@ func c11(ctx *Ctx) (*Outcome, error) {
 	for i := 0; i < 3; i++ {
 		cases = append(cases, allOfOrderArrayLimitCase(i))
 	}
+	for i := 0; i < 24; i++ {
+		cases = append(cases, branchFieldCollisionCase(i))
+	}
 	for i := 0; i < ctx.N(12, 90); i++ {
 		if c := sameRefTextTwinCase(ctx, i, sg.NewRng(ctx.Seed, fmt.Sprintf("C11-twin-%d", i)), 1<<30); c != nil {
 			cases = append(cases, c)
